@@ -179,6 +179,9 @@ func runCheck(args []string) {
 			assumed = append(assumed, shortFuncName(fn)+": "+c.Trusted)
 			continue
 		}
+		if c.Inline && len(c.Ensures) == 0 {
+			continue
+		}
 		nobl := 0
 		genErr := ""
 		for _, j := range jobsFor(fn, c, -1) {
